@@ -43,7 +43,7 @@ def judge(ctx):
     ctx.sample = {"spec": spec, "sequences_judged": n_ret}
 
 
-CFG = G.cfg(blocks=("cross", "cross", "multi"))
+CFG = G.cfg(blocks=("cross", "cross", "multi", "repeat", "merge", "nest"))
 P = D.DesignProperty(
     "C04", judge,
     rule=("case = generated design spec in the reference domain that RandomGen accepts; up to 20 sequences from RandomGen and 3 each "
